@@ -131,7 +131,8 @@ def run(ctx, host=None):
 
     # ---------------------------------------------------------------- R3
     pol = write_policy(depth=5)
-    entries = sorted(f.qualname for f in prog.all_functions() if f.cls is K.container and 'do_fsync' in f.params)
+    from .common import pack_writing_entries
+    entries = pack_writing_entries(ctx)
     chk.require(len(entries) >= 5, f'expected >= 5 pack-writing entry points, found {entries}')
     for q in entries:
         def mk(g, consts, _q=q):
